@@ -237,11 +237,12 @@ def applyFnOf (n : Nat) : Except String ApplyFn :=
   match n with
   | 0 => pure .copy | 1 => pure .reverse | 2 => pure .constInt | 3 => pure .count
   | 4 => pure .first | 5 => pure .strs | 6 => pure .ints | 7 => pure .bools | 8 => pure .ident
+  | 9 => pure .ident     -- harness tag 9 (row-wise only): returns append(xs, xs[0]); the collector reads the first ncols elements, i.e. xs
   | _ => throw "bad apply fn"
 
 def aggFnOf (n : Nat) : Except String AggFn :=
   match n with
-  | 0 => pure .count | 1 => pure .first | 2 => pure .last | 3 => pure .joinText
+  | 0 => pure .count | 1 => pure .first | 2 => pure .last | 3 => pure .joinText | 4 => pure .joinText
   | _ => throw "bad agg fn"
 
 def liftE {α} (e : Except String α) : P α :=
